@@ -306,7 +306,9 @@ impl Gen {
         if c < self.cfg.p_empty_name {
             String::new()
         } else if c < self.cfg.p_empty_name + self.cfg.p_odd_name {
-            match self.rng.below(5) {
+            match self.rng.below(6) {
+                // characters that `{:?}` would escape (the panic messages quote names with `"{}"`)
+                5 => format!("q\"{}\\t\t{}", tag, tag),
                 0 => format!("sys {}-x/{}", tag, tag),
                 1 => format!("s\u{e9}-{} /", tag),
                 2 => format!("unnamed_system_{}", tag),
